@@ -305,10 +305,7 @@ class Aligner:
         if leaf is None:
             return
         var = leaf.appended_to or leaf.var
-        d = res.defaults.get(var)
-        for sub in res.inlines.values():
-            if leaf.func == sub.func:
-                d = sub.defaults.get(var, d)
+        d = default_expr(res, leaf, var)
         dk = default_kind(d)
         ann = self.field_annotation(cls, path.replace("[]", "")) or ""
         if mode == "notnone":
@@ -321,6 +318,23 @@ class Aligner:
         self.run.ob("W9-omission-iff-default", ok, {"class": short(cls), "field": path, "writer_omits_when": mode, "reader_default": dk, "annotation": ann})
         if not ok:
             self.fail("W9-omission-iff-default", cls, f"{path}: {mode} vs default {dk}", f"{short(cls)}: {why}", opt)
+
+
+def default_expr(res: ReaderResult, leaf: RNode, var: str, depth: int = 0):
+    """Initial value of the local that receives `leaf` when the element is absent, followed through inlined helpers:
+    a helper that returns the whole value hands the question to the caller's local it is assigned to."""
+    if leaf.func == res.func or depth > 4:
+        return res.defaults.get(var)
+    for name, sub in res.inlines.items():
+        if sub.func == leaf.func:
+            if sub.field_of_var.get(var) == "<self>" and name in res.defaults:
+                return res.defaults.get(name)
+            return sub.defaults.get(var, res.defaults.get(var))
+        if sub.inlines:
+            d = default_expr(sub, leaf, var, depth + 1)
+            if d is not None:
+                return d
+    return res.defaults.get(var)
 
 
 def first_leaf(r: RNode) -> Optional[RNode]:
